@@ -91,28 +91,39 @@ fn replica_apply(req: &Value) -> Value {
     let t: Arc<MemoryTransport> = Arc::new(MemoryTransport::new("r1".to_string()));
     let raft = Arc::new(RaftNode::new("r1".to_string(), vec!["r2".into()], t, RaftConfig::default()));
     let sm = TensorStateMachine::new(chain.clone(), raft, store.clone());
+    // fast path: a first, correct block with an embedding makes the next block with the same embedding take append_fast
+    let fast = req["fast_path"].as_bool().unwrap_or(false);
+    let emb = [1.0f32, 0.0, 0.0, 0.0];
+    let root_after = |tx: &Transaction| -> Option<[u8; 32]> {
+        let pre = store.snapshot_bytes().ok()?;
+        let _ = tensor_chain::transaction::apply_transaction_to_store(&store, tx);
+        let r = compute_state_root(&store).ok();
+        let _ = store.restore_from_bytes(&pre);
+        r
+    };
+    if fast {
+        let tx0 = Transaction::Put { key: "rk0".into(), data: vec![1] };
+        let Some(r0) = root_after(&tx0) else { return json!({"error": "root"}) };
+        let b0 = chain.new_block().add_transaction(tx0).with_dense_embedding(&emb).with_state_root(r0).sign_and_build(&id);
+        if let Err(e) = sm.apply_block(&b0) { return json!({"error": format!("first block: {e}")}); }
+    }
     let tx = Transaction::Put { key: "rk".into(), data: vec![7] };
     // the root a correct proposer records: the one this store has after the transaction (computed here, then undone)
-    let pre = match store.snapshot_bytes() { Ok(p) => p, Err(e) => return json!({"error": e.to_string()}) };
-    let _ = tensor_chain::transaction::apply_transaction_to_store(&store, &tx);
-    let mut root = match compute_state_root(&store) { Ok(r) => r, Err(e) => return json!({"error": e.to_string()}) };
-    let _ = store.restore_from_bytes(&pre);
+    let Some(mut root) = root_after(&tx) else { return json!({"error": "root"}) };
     let matches = req["root_matches"].as_bool().unwrap_or(true);
     if !matches {
         let at: Vec<usize> = req["differs_at"].as_array().map(|a| a.iter().filter_map(|x| x.as_u64().map(|i| i as usize % 32)).collect()).unwrap_or_default();
         if at.is_empty() { root[0] ^= 1; }
         for i in at { root[i] ^= 1; }
     }
-    let block = chain.new_block().add_transaction(tx).with_state_root(root).sign_and_build(&id);
-    let r = if req["entry"].as_str() == Some("apply_entry") {
-        // apply_entry is private: drive it through the public apply path of a log entry is not available here; apply_block shares its body
-        sm.apply_block(&block)
-    } else {
-        sm.apply_block(&block)
-    };
+    let h0 = chain.height();
+    let mut bld = chain.new_block().add_transaction(tx);
+    if fast { bld = bld.with_dense_embedding(&emb); }
+    let block = bld.with_state_root(root).sign_and_build(&id);
+    let r = sm.apply_block(&block);
     let applied = store.exists("rk");
     json!({"root_matches": matches, "result": r.as_ref().map(|()| "Ok").map_err(|e| e.to_string()), "write_in_store": applied, "height": chain.height(),
-           "violates": (r.is_ok() && !matches) || (r.is_err() && applied) || (matches && r.is_ok() && (!applied || chain.height() != 1))})
+           "violates": (r.is_ok() && !matches) || (r.is_err() && applied) || (matches && r.is_ok() && (!applied || chain.height() != h0 + 1))})
 }
 
 /// B4: a commit that is refused at the append (its proposer is no longer a registered validator) after another workspace
